@@ -146,7 +146,45 @@ def verify_function(qual, prop, program=None, reg=None, self_cls=None, tag=None,
             s0 = st.copy()
             s0.env = local
             E.frame.loop_ordinal = 0
-            outs = E.exec_block(frontend.body_without_docstring(node), s0)
+            body = frontend.body_without_docstring(node)
+            cut = getattr(c, "cut_after_loop", None)
+            if cut is not None:
+                # a PREFIX contract: the function is executed up to and including the top-level statement that holds its
+                # loop number `cut`; the `ensures` are checked there, over the locals (a cut-point assertion).  What the
+                # function does after that point is not verified under this contract.
+                loops = sorted([n for n in ast.walk(node) if isinstance(n, (ast.While, ast.For))], key=lambda n: (n.lineno, n.col_offset))
+                if cut >= len(loops):
+                    raise Unsupported("cut point: the function has no loop %d" % cut)
+                k = None
+                for i, stmt in enumerate(body):
+                    if any(x is loops[cut] for x in ast.walk(stmt)):
+                        k = i
+                if k is None:
+                    raise Unsupported("cut point: loop %d is not under a top-level statement" % cut)
+                rep.dropped = list(rep.dropped) + ["statements after line %d (prefix contract: verified up to the cut point only)" % body[k].end_lineno]
+                E.trusted.add("prefix contract of %s: the statements after line %d are not verified" % (qual, body[k].end_lineno))
+                outs = E.exec_block(body[:k + 1], s0)
+                for o in outs:
+                    if o.tag == "ok":
+                        env2 = dict(env)
+                        env2.update(o.st.env)
+                        fr.params = dict(env)
+                        for i, e in enumerate(c.ensures):
+                            if not calls.in_force(e, prop):
+                                continue
+                            g = E.spec_bool(e, o.st, env2, st, fr)
+                            ob = _obl(E, "%s.%s.cut%d.%d" % (prop, fname, cut, i), "cut", text=e)
+                            ob.add(o.st.pc, g, note=label)
+                        _check_frame(E, c, c.modifies, fr, prop, fname, o.st, env, st, "frame.cut%d" % cut)
+                        reach_exit.append(o.st.pc)
+                    elif o.tag == "raise":
+                        _check_raise(E, c, fr, prop, fname, o.st, env, o.val, st, label)
+                    elif o.tag == "return":
+                        reach_exit.append(o.st.pc)
+                    else:
+                        raise Unsupported("break/continue at function level")
+                continue
+            outs = E.exec_block(body, s0)
             for o in outs:
                 if o.tag in ("ok", "return"):
                     val = o.val if o.tag == "return" else VNONE
